@@ -345,6 +345,12 @@ def r24(ctx, fx):
         ctx.inst(rid, with_scope.path + "|block-symbols")
         maps = [x for x, p in lib.hir_calls(with_scope.hir["body"], "Option::map")
                 if any((pp or "").endswith("try_current_target_pc") for _, pp in lib.hir_calls(x["recv"]))]
+        # or: `if let Some(pc) = self.try_current_target_pc() { … add_symbol("-", self.symbol(span, pc.as_i64(), …)) }`
+        for n in lib.hwalk(with_scope.hir["body"]):
+            if n.get("k") == "if" and lib.strip(n["cond"]).get("k") == "letx" and \
+                    any((pp or "").endswith("try_current_target_pc") for _, pp in lib.hir_calls(lib.strip(n["cond"])["init"])) and \
+                    any(True for _ in lib.hir_calls(n["then"], "CodegenContext::add_symbol")):
+                maps.append(n)
         if len(maps) < 2:
             ctx.finding(rid, with_scope.path + "|block-symbols", "block start/end symbols are not derived from the current target pc", with_scope.where)
     # source map gets target_pc in emit
